@@ -1731,6 +1731,12 @@ class SpaceUpdater(SharedSpaceOperations):
         elif isinstance(bases, UserSpaceImpl):
             bases = [bases]
 
+        for b in bases:
+            if b.model is not self.model:
+                # Found by its dotted name, it would be another space
+                raise ValueError(
+                    "Base '%s' is in another model" % b.get_fullname())
+
         node = name if parent.is_model() else parent.idstr + "." + name
 
         spaces = [s for s in bases]
@@ -1795,6 +1801,12 @@ class SpaceUpdater(SharedSpaceOperations):
         """
         node = space.idstr
         basenodes = [base.idstr for base in bases]
+
+        for base in bases:
+            if base.model is not self.model:
+                # Found by its dotted name, it would be another space
+                raise ValueError(
+                    "Base '%s' is in another model" % base.get_fullname())
 
         for base in [node] + basenodes:
             if base not in self.manager._graph:
